@@ -6,7 +6,7 @@ ULIST = ["ais", "alt", "squawk", "lat", "lon", "gs", "track", "vrate", "cat", "s
 
 def valid_frame(rng, a):
     """DF4/5/11/17 frames whose carried values are all valid"""
-    k = rng.randrange(9)
+    k = rng.randrange(10)
     r = rng.randrange
     if k == 0: return F.df4(0, 0, 0, F.ac13_q1(r(40, 2000)), a)
     if k == 1: return F.df5(0, 0, 0, r(8192), a)
@@ -17,6 +17,9 @@ def valid_frame(rng, a):
         odd = r(2)
         la, lo = F.cpr_encode(lat, lon, odd)
         return F.df17(r(8), a, F.me_airpos(r(9, 19), r(4), 0, F.ac12_q1(r(40, 2000)), 0, odd, la or 1, lo or 1))
+    if k == 9:
+        la, lo = gen.rand_cpr(rng)
+        return F.df17(r(8), a, F.me_surface(r(5, 9), r(128), 1, r(128), 0, r(2), la or 1, lo or 1))
     if k == 6: return F.df17(r(8), a, F.me_velocity(r(1, 3), 0, 0, 0, r(2), r(1, 1024), r(2), r(1, 1024), 0, r(2), r(1, 512), 0, r(128)))
     if k == 7: return F.df17(r(8), a, F.me_airpos(r(20, 23), r(4), 0, r(4096), 0, r(2), *gen.rand_cpr(rng)))
     return F.df17(r(8), a, F.me_raw(rng.choice([0, 23, 28, 29, 31]), r(1 << 51)))
